@@ -82,10 +82,19 @@ def encode_to_dict(obj: Any, refs: Dict[int, Any]):
         return None
     else:
         # Otherwise, we need custom encoding with support for references
-        if isinstance(obj, dict):
+        if isinstance(obj, dict) and all(isinstance(k, str) for k in obj):
             value = {
                 "__type": "dict",
                 "value": {k: encode_to_dict(v, refs) for k, v in obj.items()},
+            }
+        elif isinstance(obj, dict):
+            # JSON object keys are strings: other keys are kept as (key, value) pairs
+            value = {
+                "__type": "dict",
+                "items": [
+                    [encode_to_dict(k, refs), encode_to_dict(v, refs)]
+                    for k, v in obj.items()
+                ],
             }
         elif is_dataclass(obj):
             value = {
@@ -194,6 +203,12 @@ def decode_from_dict(d: Any, refs: Dict[int, Any]):
 
             elif d_type == "tuple":
                 value = tuple(decode_from_dict(d["value"], refs))
+
+            elif d_type == "dict" and "items" in d:
+                value = {
+                    decode_from_dict(k, refs): decode_from_dict(v, refs)
+                    for k, v in d["items"]
+                }
 
             elif d_type == "dict":
                 value = {k: decode_from_dict(v, refs) for k, v in d["value"].items()}
